@@ -725,6 +725,7 @@ class Case:
         self.checks = []        # (line index, kind, expected, context)
         self.problems = []      # (signature, what, found_input)
         self.structural = False
+        self.heavy = False
         self.counts = {}
 
     def bump(self, k, n=1):
@@ -783,6 +784,7 @@ def circuit_case(rng, key, max_dim, lean_dim, grad_dim, do_fd,
     c = gen_circuit(rng, rad, nops)
     case = Case(key, describe_circuit(c))
     report_edit_errors(case, c)
+    case.heavy = dim > 1024
     case.bump('dim<=%d' % (1 << max(1, math.ceil(math.log2(dim)))))
     for h in c._c06_log:
         case.bump('hist_' + h)
@@ -833,7 +835,7 @@ def circuit_case(rng, key, max_dim, lean_dim, grad_dim, do_fd,
     # --- explicit parameters == store-then-evaluate
     np_ = c.num_params
     newp = [POOL[rng.randrange(len(POOL))][2] for _ in range(np_)]
-    if np_ > 0:
+    if np_ > 0 and not case.heavy:
         u2_impl = call(lambda: np.array(c.get_unitary(newp)))
         u2_or = o_unitary(c, newp)
         verdict(case, 'unitary-explicit', u2_impl, u2_or)
@@ -862,7 +864,7 @@ def circuit_case(rng, key, max_dim, lean_dim, grad_dim, do_fd,
     if with_lean:
         case.expect(f'state {cid} | {" ".join(map(gstr, sv))} | | '
                     + ' '.join(map(str, rad)), 'tensors1', s_impl, 'state')
-    if np_ > 0:
+    if np_ > 0 and not case.heavy:
         s2_impl = call(lambda: np.array(c.get_statevector(
             StateVector(sv_np, rad), newp)))
         verdict(case, 'state-explicit', s2_impl, o_state(c, sv_np, newp))
@@ -1053,8 +1055,8 @@ def param_api(rng, case, c, cid, with_lean):
                 case.expect(f'setparams {cid} | ' + ' '.join(map(ptok, vs)),
                             'exact', 'ok' if r[0] == 'ok' else f'err {r[1]}')
         elif kind == 'freeze':
-            u_before = o_unitary(c) if (0 <= i < npar and
-                                        not case.structural) else None
+            u_before = o_unitary(c) if (0 <= i < npar and not case.heavy
+                                        and not case.structural) else None
             where = call(lambda: c.get_param_location(i))
             r = call(lambda: c.freeze_param(i))
             if r[0] == 'ok' and where[0] == 'ok':
@@ -1444,11 +1446,14 @@ def run(ck: Check):
                big_frac=.05, lean_dim=128, grad_dim=64, lean_grad_dim=32,
                embedprod_dim=16, build_dim=81, fd=True, n_struct=1) if quick else \
         dict(small_dim=48, mid_dim=128, max_dim=4096, mid_frac=.25,
-             big_frac=.04, lean_dim=256, grad_dim=256, lean_grad_dim=48,
+             big_frac=.02, lean_dim=256, grad_dim=256, lean_grad_dim=48,
              embedprod_dim=24, build_dim=256, fd=True, n_struct=2)
-    nchunks = 48 if quick else 640
+    nchunks = 48 if quick else 160
     n_circ = 8 if quick else 30
     n_build = 3 if quick else 6
+    import os
+    if os.environ.get('VERIF_C06_CHUNKS'):          # development aid
+        nchunks = int(os.environ['VERIF_C06_CHUNKS'])
     if replay is not None:
         # re-generate exactly the chunk of the recorded case (deterministic)
         key = (replay.get('replay') or {}).get('case')
